@@ -2,6 +2,7 @@ package props
 
 import (
 	"bytes"
+	"context"
 	"encoding/binary"
 	"fmt"
 	"io/ioutil"
@@ -11,6 +12,7 @@ import (
 	"net/http"
 	"net/http/httptest"
 	"os"
+	"os/exec"
 	"path/filepath"
 	"runtime"
 	"runtime/debug"
@@ -47,7 +49,7 @@ func (c15) Meta() fw.Meta {
 			"allocation is measured as the TotalAlloc delta around a call made from the only running harness goroutine",
 			"a >30 s call on a <= 64 KiB input counts as a hang",
 		},
-		Obligations: []string{"decoder_calls", "decoder_errors", "decoder_accepts", "extreme_count_inputs", "open_calls", "open_rejected", "open_accepted_damaged", "handle_ops_on_damaged", "handle_op_errors", "remote_client_calls", "remote_client_errors", "alloc_checked", "remote_list_client_calls", "second_open_after_rejection", "calls_to_a_peer_announcing_a_huge_body", "sums_over_mostly_corrupt_items", "remote_client_calls_naming_an_archive"},
+		Obligations: []string{"decoder_calls", "decoder_errors", "decoder_accepts", "extreme_count_inputs", "open_calls", "open_rejected", "open_accepted_damaged", "handle_ops_on_damaged", "handle_op_errors", "remote_client_calls", "remote_client_errors", "alloc_checked", "remote_list_client_calls", "second_open_after_rejection", "calls_to_a_peer_announcing_a_huge_body", "sums_over_mostly_corrupt_items", "remote_client_calls_naming_an_archive", "view_raw_command_on_inconsistent_responses"},
 		Workers:     8,
 	}
 }
@@ -294,6 +296,14 @@ func (c15) Run(c *fw.Ctx) {
 	// sums over an item most of whose files are corrupt: an error, not a hang
 	if c.Index%4 == 1 {
 		c15CorruptItem(c)
+		if c.Violated() {
+			return
+		}
+	}
+	// the view-raw COMMAND (not only its decoder) against responses that decode cleanly but are inconsistent: more points
+	// than the header's archive has room for; a header declaring millions of points followed by a handful
+	if c.Index%4 == 2 {
+		c15ViewRawCommand(c, srv.URL, &body)
 		if c.Violated() {
 			return
 		}
@@ -897,5 +907,58 @@ func c15CorruptItem(c *fw.Ctx) {
 	}
 	if err == nil {
 		c.Violationf("corrupt-files-summed", det, "sum over an item whose files are corrupt returned no error")
+	}
+}
+
+func c15ViewRawCommand(c *fw.Ctx, stubURL string, body *[]byte) {
+	r := c.Rng
+	now := time.Now().Unix()
+	for variant := 0; variant < 2; variant++ {
+		var l model.Layout
+		npts := 0
+		if variant == 0 {
+			l = model.Layout{Archs: []model.Arch{{Step: 1, Points: uint32(2 + r.Intn(3))}}, Method: 2, Xff: 0.5}
+			npts = int(l.Archs[0].Points) + 1 + r.Intn(5)
+		} else {
+			l = model.Layout{Archs: []model.Arch{{Step: 1, Points: uint32(5000000 + r.Intn(20000000))}}, Method: 2, Xff: 0.5}
+			npts = 3
+		}
+		b := model.EncodeHeader(l)
+		var cnt [8]byte
+		binary.BigEndian.PutUint64(cnt[:], uint64(npts))
+		b = append(b, cnt[:]...)
+		for i := 0; i < npts; i++ {
+			var rec [12]byte
+			binary.BigEndian.PutUint32(rec[:4], uint32(now-int64(i)-1))
+			binary.BigEndian.PutUint64(rec[4:], math.Float64bits(float64(i)+0.5))
+			b = append(b, rec[:]...)
+		}
+		*body = b
+		args := []string{"view-raw", "-src-base", stubURL, "-src", "a.wsp", "-from", tsArg(now - 100), "-until", tsArg(now)}
+		ctx, cancel := context.WithTimeout(context.Background(), 60*time.Second)
+		cmd := exec.CommandContext(ctx, cliBin(c), args...)
+		var so, se bytes.Buffer
+		cmd.Stdout, cmd.Stderr = &so, &se
+		err := cmd.Run()
+		timedOut := ctx.Err() == context.DeadlineExceeded
+		cancel()
+		c.Count("view_raw_command_on_inconsistent_responses", 1)
+		out := se.String() + so.String()
+		det := fw.J{"response": fmt.Sprintf("header of %s followed by a list of %d points", l.String(), npts), "stderr": truncStr(se.String(), 1500)}
+		if strings.Contains(out, "panic:") || strings.Contains(out, "goroutine 1 [") || strings.Contains(out, "fatal error:") {
+			c.Violationf("panic:cli:view-raw", det, "view-raw crashed on a response that decodes cleanly but does not fit its own header")
+			return
+		}
+		if timedOut {
+			c.Violationf("hang:cli:view-raw", det, "view-raw did not finish within 60 s")
+			return
+		}
+		if ps := cmd.ProcessState; ps != nil && err == nil || ps != nil {
+			if ru, ok := ps.SysUsage().(*syscall.Rusage); ok && ru.Maxrss > 200*1024 {
+				det["max_rss_kb"] = ru.Maxrss
+				c.Violationf("alloc:cli:view-raw", det, "view-raw used %d MiB of memory for a response of %d bytes", ru.Maxrss/1024, len(b))
+				return
+			}
+		}
 	}
 }
